@@ -15,6 +15,7 @@ masked(std::io run) == masked(shim run), where the mask removes what std leaves 
 (reads after a failed read_exact)."""
 from iolib import *  # noqa
 import hashlib
+import re
 
 
 def tagged(x, n=80):
@@ -26,7 +27,7 @@ PID = 'C13'
 
 
 # ------------------------------------------------------------------ (a) workload across builds
-def workload(exe, cfg, seed, tier):
+def _workload(exe, cfg, seed, tier):
     """Returns (transcript {key: result}, model_lines [(key, line)], counts)."""
     rng = random.Random(seed * 31 + 5)
     per = 2 if tier == 'quick' else 5
@@ -77,7 +78,7 @@ def workload(exe, cfg, seed, tier):
             its = rand_rsched(rng, len(inp) // 2 + 1, 0.3)
             if rng.random() < 0.4:       # a hard failure of any kind, with or without a message, somewhere in the schedule
                 pos = rng.randrange(len(its) + 1)
-                its = its[:pos] + [fail_item(rng.choice(USER_KINDS), rand_msg(rng))] + its[pos:]
+                its = its[:pos] + [fail_item(rng.choice(USER_KINDS + (15, 16)), rand_msg(rng))] + its[pos:]
             sch = sched_s(its)
             entry = rng.choice(('deserialize_reader', 'try_from_reader', 'from_reader'))
             cid3 = '%s_%d_r' % (cid, i)
@@ -85,7 +86,7 @@ def workload(exe, cfg, seed, tier):
             lines.append(case_line(cid3, 'decr', tid, sexp(t), entry, hx(inp), sch))
             meta[cid3] = k
             mlines.append((k, case_line('K', 'decr', tid, sexp(t), strict, shim, entry, hx(inp), sch)))
-        for w in ('b:%d' % rng.randrange(L + 2), 's:' + sched_s(rand_wsched(rng, L + 1, 0.3) + ([fail_item(rng.choice(USER_KINDS), rand_msg(rng))] if rng.random() < 0.5 else []))):
+        for w in ('b:%d' % rng.randrange(L + 2), 's:' + sched_s(rand_wsched(rng, L + 1, 0.3) + ([fail_item(rng.choice(USER_KINDS + (15, 16)), rand_msg(rng))] if rng.random() < 0.5 else []))):
             cid4 = '%s_w%s' % (cid, w[0])
             k = 'encw %s %s %s' % (rust(t), tagged(v), tagged(w, 60))
             lines.append(case_line(cid4, 'encw', tid, sexp(t), v, w))
@@ -100,6 +101,19 @@ def workload(exe, cfg, seed, tier):
                 mlines.append((k, case_line('K', 'encw', tid, sexp(t), shim, repr_, w)))
         trans[k] = r
     return trans, mlines
+
+
+def workload(exe, cfg, seed, tier):
+    """the transcript with every error message followed by a digest of its raw text (HARNESS_RAW_MSG): the two builds
+    are compared message for message, the model (which knows message classes) after stripping the digests"""
+    ENV['HARNESS_RAW_MSG'] = '1'
+    try:
+        return _workload(exe, cfg, seed, tier)
+    finally:
+        ENV.pop('HARNESS_RAW_MSG', None)
+
+
+RAW = re.compile(r'#[0-9a-f]{8}')
 
 
 def model_transcript(driver, mlines):
@@ -122,6 +136,8 @@ def compare_with_model(trans, model, cfg, disagreements):
     n = 0
     for k, m in model.items():
         h = trans.get(k)
+        if h is not None:
+            h = RAW.sub('', h)
         n += 1
         if k.startswith('decr '):
             hr, hp = split_res(h)
@@ -156,6 +172,30 @@ def op_cases(rng, tier):
         cap = rng.randrange(0, 10)
         inp = bytes(rng.randrange(256) for _ in range(n)).hex()
         cases.append((inp, cap, rand_ops(rng, rng.randrange(1, 14), n, cap)))
+    return cases
+
+
+def ext_op_cases(rng, tier):
+    """sequences that also use `flush` and `write_fmt` (formatted output with two arguments): outside the model's op
+    language (coq/Io.v has five ops), compared between real std::io and borsh::io only"""
+    import itertools
+    texts = ['', '61', '68656c6c6f', 'c3a9e282ac', '30' * 9]
+    ext = ['fs', 'fv', 'bfs'] + ['ms:' + t for t in texts] + ['mv:' + t for t in texts[:3]] + ['bms:6869', 'bbmv:6869']
+    base = ['r2', 'x2', 'ws:0102', 'as:030405', 'as:06', 'wv:09', 'av:0a0b']
+    cases = []
+    for cap in (0, 1, 3, 7):
+        for seq in itertools.product(ext, repeat=2):
+            cases.append(('0a0b0c', cap, list(seq)))
+        for a in ext:
+            for b in base:
+                cases.append(('0a0b0c', cap, [a, b]))
+                cases.append(('0a0b0c', cap, [b, a, b]))
+    for _ in range(1500 if tier == 'quick' else 10000):
+        n, cap = rng.randrange(0, 8), rng.randrange(0, 12)
+        ops = rand_ops(rng, rng.randrange(1, 9), n, cap)
+        for _ in range(rng.randrange(1, 4)):
+            ops.insert(rng.randrange(len(ops) + 1), 'b' * rng.choice((0, 0, 1, 2)) + rng.choice(ext).lstrip('b'))
+        cases.append((bytes(rng.randrange(256) for _ in range(n)).hex(), cap, ops))
     return cases
 
 
@@ -237,6 +277,13 @@ def run(tier, seed, t0):
     for cfg, exe in exes.items():
         run_ops_stage(cfg, exe, driver, cases, stats, disagreements, failures)
     stats['distinct_nontrivial'] += len(cases)
+    ext = ext_op_cases(rng, tier)
+    stats['ext_op_sequences'] = {}
+    for cfg, exe in exes.items():
+        st2 = {'evaluations': 0, 'op_sequences': {}, 'op_samples': []}
+        run_ops_stage(cfg, exe, driver, ext, st2, [], failures, oracle_only=True)
+        stats['evaluations'] += st2['evaluations']
+        stats['ext_op_sequences'][cfg] = dict(st2['op_sequences'].get(cfg, {}), ops='the five ops + flush + write_fmt; std::io vs borsh::io side by side, no model')
     stats['rule'] = ('(a) one seeded workload over the catalogue types available without std: enc, dec (deserialize, try_from_slice) of encodings + '
                      'tails, truncations, corruptions, scheduled readers and writers; transcript equality between the std and nostd+hashbrown builds '
                      'and with the model; (b) all op sequences of length 3 over a %d-op alphabet on one world, length 2 on two more, and random '
